@@ -29,9 +29,10 @@ LEVEL_NOTE = ("Trusted: Coq kernel, translator/c09_schema.py (regex transcriptio
               "types, Doltgres root values (walker delegates to a hook), vector-index keys (documented in vectorindexnode.fbs as covered by the "
               "primary index), the base root-ish stored as JSON inside conflict-artifact values.")
 THEOREMS = ["walk_covers_loads_complete", "walk_covers_loads_partial", "walk_covers_loads_refuted", "walk_covers_loads_today",
-            "walk_covers_schema", "walk_covers_schema_complete", "walker_cases_pinned_ok", "schema_classified_ok"]
-REFUTED = ["walk_covers_loads_refuted is a statement about incomplete walkers (complete fl = false); the current source regenerates to "
-           "complete source_flags = true, so walk_covers_loads_today selects the proved branch"]
+            "walk_covers_schema", "walk_covers_schema_complete", "walker_cases_pinned_ok", "schema_classified_ok", "oracle_model_when_complete"]
+REFUTED = ["walk_covers_loads_refuted: the current source regenerates to f_art_base = false (walkMergeArtifactAddresses does not report the "
+           "base root-ish stored in conflict-artifact values), so walk_covers_loads_today selects the refuted branch; witness artifact_witness, "
+           "replayed on the implementation by the revert / revert_foreign scenarios"]
 RULE = ("repository states built through SQL: six scenarios (no operation in progress, conflicted merge, conflicted cherry-pick, conflicted "
         "revert series with a pending commit, interactive rebase before and after a conflicting step) × random options (staged/unstaged "
         "changes, tags, stashes, foreign keys, secondary indexes, out-of-band TEXT/JSON, 3..1500 rows); non-trivial = the state carries at "
@@ -40,11 +41,11 @@ ASSUMPTIONS = ["objects are those reachable from the store root of repositories 
                "a loader's dereferences of an object are observed as the chunk reads, among the object's own address fields, made by the real "
                "loader functions listed in harness/c09/c09.go"]
 REQUIRED_TAGS = ["ws-merge-state", "ws-rebase-state", "ws-pending", "ws-prehead", "staged-differs", "commit-two-parents", "commit-closure",
-                 "table-artifacts", "table-secondary", "prim-children", "value-addrs", "stash", "tag", "fk"]
+                 "table-artifacts", "table-secondary", "prim-children", "value-addrs", "stash", "tag", "fk", "scn-revert_foreign"]
 HARNESS_TIMEOUT = 1500
 COQ_SHARD = 40
 
-SCNS = ["plain", "merge", "cherry", "revert", "rebase", "rebase_conflict"]
+SCNS = ["plain", "merge", "cherry", "revert", "rebase", "rebase_conflict", "revert_foreign"]
 
 
 def gen_cases(rng, tier):
@@ -54,6 +55,7 @@ def gen_cases(rng, tier):
     cases.append({"scn": "rebase", "rows": 3})
     cases.append({"scn": "revert", "pending": True, "rows": 3})
     cases.append({"scn": "rebase_conflict", "rows": 3, "staged": True, "unstaged": True})
+    cases.append({"scn": "revert_foreign", "rows": 3, "commitc": True})      # witness of the ConflictMetadata.bc finding
     cases.append({"scn": "plain", "rows": 1500, "idx": True, "blob": True, "fk": True, "tag": True, "stash": True, "staged": True, "unstaged": True})
     for scn in SCNS:
         for _ in range(per):
@@ -62,6 +64,8 @@ def gen_cases(rng, tier):
                 c[k] = rng.random() < 0.5
             if scn == "revert":
                 c["pending"] = rng.random() < 0.6
+            if scn == "revert_foreign":
+                c["commitc"] = rng.random() < 0.5
             cases.append(c)
     return cases
 
@@ -131,7 +135,7 @@ def coq_case(case, out):
         objs = cq_list("(%s, %s)" % (_ints(x["walked"]), _ints(x["loaded"])) for x in o["objs"])
     except (ValueError, KeyError, IndexError, TypeError):
         return BAD
-    return "(%s, {| o_objs := %s; o_stray := %d |})" % (msgs, objs, int(o.get("stray", 0)))
+    return "(%s, {| o_objs := %s; o_stray := %d |})" % (msgs, objs, int(o.get("stray", 0)) + int(o.get("stray_base", 0)))
 
 
 def classify(case, out):
@@ -143,6 +147,8 @@ def classify(case, out):
         t.append("script-error")
     if o.get("stray"):
         t.append("stray-reads")
+    if o.get("stray_base"):
+        t.append("conflict-base-outside-closure")
     for x in o["objs"]:
         m = x["msg"]
         k = m["k"]
@@ -221,13 +227,24 @@ def search_cases(rng):
 
 
 # ---- known findings ----
-# F2 (WorkingSet.WalkAddrs omitting rebase_state.pre_working_root_addr / rebase_state.onto_commit_addr /
-# merge_state.pre_merge_head_commit_addr / merge_state.pending_commit_hashes) was repaired in
-# go/store/types/serial_message.go.  Nothing is suppressed any more: a loaded-but-not-walked address of any
-# field is a violation.  The recipes that exposed it stay as always-run cases (first four of gen_cases, and
-# every scenario with merge / rebase state).
+# F2 (WorkingSet.WalkAddrs omissions) was repaired in go/store/types/serial_message.go: nothing of it is suppressed.
+# Open: conflict artifacts record the base root-ish of the three-way merge as JSON (key "bc") inside the value
+# tuple; message.walkMergeArtifactAddresses reports only the key addresses, while the dolt_conflicts_<t> reader
+# dereferences that root-ish.  For revert conflicts the base (the reverted commit) is not reachable from the
+# artifact's "their" root-ish, so the read leaves the table's walker closure.
+KEY_ART_BASE = "MergeArtifacts.WalkAddresses:ConflictMetadata.bc"
+
+
 def match_known(finding, case, out):
-    return False
+    o = out.get("obs")
+    if not o or out.get("panic") or out.get("err") or finding.get("key") != KEY_ART_BASE:
+        return False
+    if o.get("stray") or not o.get("stray_base"):
+        return False                     # any other stray read is not known
+    for x in o["objs"]:
+        if x.get("missing") or not set(x["loaded"]) <= set(x["walked"]):
+            return False                 # any per-object omission is not known
+    return all("conflict root-ish read" in d for d in (o.get("stray_detail") or []))
 
 
 def run(ctx):
